@@ -144,6 +144,21 @@ func (e *Engine) Exec(cmd ...string) *Failure {
 					devs = append(devs, findings.Deviation{Kind: "state", Diff: &model.Diff{Key: k, Part: "observe", Got: obs[k]}})
 					continue
 				}
+				if obs[k].Hidden != 0 {
+					// A Soft step (undefined arithmetic such as inf*0 or inf-inf) left NaN-scored members,
+					// which no range query returns: outside the modelled domain, drop the key on both sides.
+					e.S.Do("DEL", k)
+					e.M.Adopt(db, k, model.KeyState{Type: model.TNone})
+					if e.Rec != nil {
+						e.Rec.Class("nan-score-escape")
+					}
+					continue
+				}
+				if e.M.SoftCheck != nil {
+					if msg, ok := e.M.SoftCheck(k, obs[k]); !ok {
+						devs = append(devs, findings.Deviation{Kind: "state", Diff: &model.Diff{Key: k, Part: "value", Got: obs[k], Extra: msg, Want: model.KeyState{Type: "?", Note: msg}}})
+					}
+				}
 				if obs[k].Type == model.TList {
 					if msg, ok := e.M.SoftCheckList(k, obs[k].L); !ok {
 						devs = append(devs, findings.Deviation{Kind: "state", Diff: &model.Diff{Key: k, Part: "value", Got: obs[k], Extra: msg}})
@@ -152,9 +167,14 @@ func (e *Engine) Exec(cmd ...string) *Failure {
 				e.M.Adopt(db, k, obs[k])
 				continue
 			}
-			if d := model.CompareKey(k, e.M.Expected(db, k), obs[k]); d != nil {
+			want := e.M.Expected(db, k)
+			if d := model.CompareKey(k, want, obs[k]); d != nil {
 				d.Extra = fmt.Sprintf("db %d", db)
 				devs = append(devs, findings.Deviation{Kind: "state", Diff: d})
+			} else if want.Type != obs[k].Type {
+				// An emptied collection may linger as an empty key or vanish (not asserted): the model
+				// follows the server so that later existence-dependent commands are judged consistently.
+				e.M.Adopt(db, k, obs[k])
 			}
 		}
 	}
